@@ -72,5 +72,8 @@ func (f *NoNextMethod) Call(s *slip.Scope, args slip.List, depth int) slip.Objec
 type defaultNoNextMethCaller struct{}
 
 func (defaultNoNextMethCaller) Call(s *slip.Scope, args slip.List, depth int) slip.Object {
+	if len(args) < 2 {
+		slip.ErrorPanic(s, depth, "Too few arguments to no-next-method. At least 2 expected but got %d.", len(args))
+	}
 	panic(slip.ErrorNew(s, depth, "No next method for %s %s. %s", args[0], args[1], args[2:]))
 }
